@@ -3,6 +3,8 @@
 (* or the same locations as an unstructured grid / unstructured points).     *)
 (* case = [kind, src, dst, su, tu, sm, tm, fill]                             *)
 (*   kind "nearest" | "linear"; su / tu "struct" | "unstr" | "upoints";      *)
+(*   su = "umixed": the source is the unstructured mesh Mesh (triangles and  *)
+(*   quadrilaterals mixed, data on cells, located at the mean of the nodes)   *)
 (*   sm / tm: source / target carry the mask "token divisible by 3 / 4";     *)
 (*   fill: RegridLinear(fill_with_nearest=True)                              *)
 (* Values: nearest - every source location carries its token; linear - the   *)
@@ -13,20 +15,32 @@ N(L) == Prod(DataShape(L))
 (* locations in the order in which data of that grid is listed *)
 Locs(L, how) == IF how = "struct" THEN [p \in 1..N(L) |-> Coord(L, UnflatC(DataShape(L), p - 1))]
                 ELSE DataPoints(L)
-SMask(c, p) == c.sm /\ Tok(Locs(c.src, c.su)[p]) % 3 = 0
+(* a genuinely unstructured source: 9 nodes, 2 quadrilaterals and 4 triangles (doubled coordinates) *)
+MeshPts == << <<0, 0>>, <<6, 0>>, <<12, 0>>, <<0, 6>>, <<6, 6>>, <<12, 6>>, <<0, 12>>, <<6, 12>>, <<12, 12>> >>
+MeshCells == << <<1, 2, 5, 4>>, <<2, 3, 5>>, <<3, 6, 5>>, <<4, 5, 8, 7>>, <<5, 6, 8>>, <<6, 9, 8>> >>
+SumAx(cell, a) == LET RECURSIVE S(_)
+                      S(j) == IF j = 0 THEN 0 ELSE MeshPts[cell[j]][a] + S(j - 1)
+                  IN S(Len(cell))
+Centroid(cell) == [a \in 1..2 |-> SumAx(cell, a) \div Len(cell)]
+ASSUME \A k \in 1..Len(MeshCells), a \in 1..2 : SumAx(MeshCells[k], a) % Len(MeshCells[k]) = 0    \* exact
+MeshLocs == [k \in 1..Len(MeshCells) |-> Centroid(MeshCells[k])]
+MeshLayout == [kind |-> "mesh", dims |-> <<Len(MeshCells)>>, order |-> "C", rev |-> FALSE, inc |-> <<TRUE>>, loc |-> "cells"]
+NS(c) == IF c.su = "umixed" THEN Len(MeshCells) ELSE N(c.src)
+SLocs(c) == IF c.su = "umixed" THEN MeshLocs ELSE Locs(c.src, c.su)
+SMask(c, p) == c.sm /\ (IF c.su = "umixed" THEN p % 3 = 0 ELSE Tok(SLocs(c)[p]) % 3 = 0)
 TMask(c, p) == c.tm /\ Tok(Locs(c.dst, c.tu)[p]) % 4 = 1
 Dist2(a, b) == LET dx == a[1] - b[1]
                    dy == IF Len(a) > 1 THEN a[2] - b[2] ELSE 0
                    dz == IF Len(a) > 2 THEN a[3] - b[3] ELSE 0
                IN dx * dx + dy * dy + dz * dz
-Live(c) == {p \in 1..N(c.src) : ~SMask(c, p)}
-NearestSrc(c, q) == {p \in Live(c) : \A r \in Live(c) : Dist2(Locs(c.src, c.su)[p], q) <= Dist2(Locs(c.src, c.su)[r], q)}
+Live(c) == {p \in 1..NS(c) : ~SMask(c, p)}
+NearestSrc(c, q) == {p \in Live(c) : \A r \in Live(c) : Dist2(SLocs(c)[p], q) <= Dist2(SLocs(c)[r], q)}
 Affine(q) == 3 * q[1] + (IF Len(q) > 1 THEN 5 * q[2] ELSE 0) + 7
-SrcField(c) == [p \in 1..N(c.src) |-> IF c.kind = "nearest" THEN Tok(Locs(c.src, c.su)[p]) ELSE Affine(Locs(c.src, c.su)[p])]
+SrcField(c) == [p \in 1..NS(c) |-> IF c.kind = "nearest" THEN Tok(SLocs(c)[p]) ELSE Affine(SLocs(c)[p])]
 
 (* position of q relative to the convex hull of the unmasked source locations (2-D) *)
 Orient(a, b, q) == (b[1] - a[1]) * (q[2] - a[2]) - (b[2] - a[2]) * (q[1] - a[1])
-LivePts(c) == {Locs(c.src, c.su)[p] : p \in Live(c)}
+LivePts(c) == {SLocs(c)[p] : p \in Live(c)}
 FullDim(c) == \E a \in LivePts(c), b \in LivePts(c), d \in LivePts(c) : Orient(a, b, d) # 0
 Outside(c, q) == \E a \in LivePts(c), b \in LivePts(c) :
                     a # b /\ (\A s \in LivePts(c) : Orient(a, b, s) >= 0) /\ Orient(a, b, q) < 0
@@ -59,6 +73,13 @@ NearestCases(u) ==
             sm \in BOOLEAN, tm \in BOOLEAN} :
      /\ D(c.src) = D(c.dst) /\ c.su \in Hows(c.src) /\ c.tu \in Hows(c.dst) /\ Live(c) # {}
      /\ (c.dst.kind = "esri" => c.tu = "struct")}
+(* the mixed mesh onto a fine structured grid covering it *)
+MeshDst == {L \in Layouts({"uniform"}, {<<7, 7>>}) : L.loc = "points" /\ ~L.rev /\ L.inc = <<TRUE, TRUE>>}
+MeshCases(u) ==
+  {[kind |-> "nearest", src |-> MeshLayout, dst |-> d, su |-> "umixed", tu |-> "struct", sm |-> sm, tm |-> tm, fill |-> FALSE] :
+     d \in MeshDst, sm \in BOOLEAN, tm \in BOOLEAN} \cup
+  {[kind |-> "linear", src |-> MeshLayout, dst |-> d, su |-> "umixed", tu |-> "struct", sm |-> sm, tm |-> FALSE, fill |-> f] :
+     d \in MeshDst, sm \in BOOLEAN, f \in BOOLEAN}
 (* identity between layouts of one grid *)
 IdentityCases(u) ==
   {[kind |-> "nearest", src |-> s, dst |-> d, su |-> "struct", tu |-> "struct", sm |-> FALSE, tm |-> FALSE, fill |-> FALSE] :
